@@ -60,9 +60,19 @@ pub fn config_item(t: SignType) -> [[u8; 16]; 1] {
 
 /// Runs configure / configure_if_needed / show / load / shut_down (no page data involved).
 pub fn run_unit(call: Call, replies: Replies, strict: bool, check_data: bool, max_polls: u8) -> (Res, Rc<RefCell<SymBus<1, 16>>>) {
+    run_unit_bounded(call, replies, strict, check_data, max_polls, 3, false)
+}
+
+/// `max_attempts` < 3 limits the explored conversations to that many transfer attempts (the retry
+/// logic lives in the shared `send_data` and is covered with all three attempts by the send_pages
+/// harnesses); `one_type` fixes the sign type to Max3000Dash30x7 instead of a symbolic one.
+pub fn run_unit_bounded(call: Call, replies: Replies, strict: bool, check_data: bool, max_polls: u8, max_attempts: u8, one_type: bool) -> (Res, Rc<RefCell<SymBus<1, 16>>>) {
     let own: u16 = kani::any();
-    let t = any_sign_type();
-    let bus = Rc::new(RefCell::new(SymBus::<1, 16>::new(own, call, config_item(t), replies, strict, check_data, max_polls)));
+    let t = if one_type { SignType::Max3000Dash30x7 } else { any_sign_type() };
+    let mut sb = SymBus::<1, 16>::new(own, call, config_item(t), replies, strict, check_data, max_polls);
+    sb.max_attempts = max_attempts;
+    sb.rich = max_attempts >= 3;
+    let bus = Rc::new(RefCell::new(sb));
     let dynbus: Rc<RefCell<dyn SignBus>> = bus.clone();
     let sign = Sign::new(dynbus, Address(own), t);
     let r = match call {
@@ -90,6 +100,7 @@ pub fn run_pages<const P: usize, const ILEN: usize>(w: u32, h: u32, replies: Rep
     }
     let mut sb = SymBus::<P, ILEN>::new(own, Call::SendPages, items, replies, strict, check_data, 0);
     sb.max_attempts = max_attempts;
+    sb.rich = max_attempts >= 3;
     let bus = Rc::new(RefCell::new(sb));
     let dynbus: Rc<RefCell<dyn SignBus>> = bus.clone();
     let sign = Sign::new(dynbus, Address(own), any_sign_type());
